@@ -4,12 +4,12 @@
 use crate::base::*;
 use ggrs::verif_hooks as vh;
 use ggrs::{Message, NonBlockingSocket};
-use serde::Serialize;
+use serde::{Deserialize, Serialize};
 use std::cell::RefCell;
 use std::collections::{BTreeMap, HashMap, HashSet};
 use std::rc::Rc;
 
-#[derive(Clone, Debug, Serialize, PartialEq)]
+#[derive(Clone, Debug, Serialize, Deserialize, PartialEq)]
 pub enum Fault {
     Drop,
     Dup,
@@ -18,7 +18,7 @@ pub enum Fault {
 /// A scripted fault on the `idx`-th packet of a link phase.
 /// phase 0: index counts all packets of the link from the start (handshake);
 /// phase 1: index counts packets from the first non-handshake packet on the link.
-#[derive(Clone, Debug, Serialize, PartialEq)]
+#[derive(Clone, Debug, Serialize, Deserialize, PartialEq)]
 pub struct ScriptFault {
     pub phase: u8,
     pub idx: u64,
@@ -26,13 +26,13 @@ pub struct ScriptFault {
 }
 /// Timed outage, times in ms relative to T0. `kinds`: bit mask of message kinds affected
 /// (0 = all kinds).
-#[derive(Clone, Debug, Serialize, PartialEq)]
+#[derive(Clone, Debug, Serialize, Deserialize, PartialEq)]
 pub struct Outage {
     pub from_ms: u64,
     pub to_ms: u64,
     pub kinds: u16,
 }
-#[derive(Clone, Debug, Default, Serialize, PartialEq)]
+#[derive(Clone, Debug, Default, Serialize, Deserialize, PartialEq)]
 pub struct Link {
     pub drop: f64,
     pub dup: f64,
